@@ -167,6 +167,29 @@ let dispatch (op : string) (t : toks) : string =
   | "crc" -> let p = get_bytes t in out_int (int_of_n (crc_impl p)) ^ " " ^ out_int (int_of_n (xmodem p))
   | "canoncomp" -> let crc = get_bool t in out_bytes (Canon.compress crc (get_bytes t))
   | "canondec" -> let crc = get_bool t in out_option out_bytes (Canon.decode crc (get_bytes t))
+  | "msgwrite" ->
+      let hdr = get_list t (fun t -> let k = get_bytes t in let vs = get_list t get_bytes in (k, vs)) in
+      let body = get_bytes t in
+      let files = get_list t get_bytes in
+      (match message_write { mhdr = hdr; mbody = body; mfiles = files } with
+       | WOk b -> "ok " ^ out_bytes b
+       | WDateError -> "date_error"
+       | WDateUnknown -> "date_unknown")
+  | "msgread" ->
+      let p = read_from (get_bytes t) in
+      let st = (match p.p_status with RfOk -> "ok" | RfHeaderErr -> "header_err" | RfSectionErr -> "section_err"
+                | RfDateErr -> "date_err" | RfDateUnknown -> "date_unknown") in
+      let show_hdr h = out_list (fun (k, vs) -> out_bytes k ^ " " ^ out_list out_bytes vs)
+                         (List.sort (fun (a, _) (b, _) -> compare (hex_of_bytes a) (hex_of_bytes b)) h) in
+      (match p.p_status with
+       | RfHeaderErr -> st
+       | _ -> String.concat " " [st; show_hdr p.p_hdr; out_bytes p.p_body;
+                                 out_list (fun f -> out_bytes f.pf_data ^ " " ^ out_bytes f.pf_name ^ " " ^ out_bool f.pf_err) p.p_files])
+  | "addr" ->
+      let a = address_from_string (get_bytes t) in
+      String.concat " " [out_bytes a.a_proto; out_bytes a.a_addr; out_bytes (address_string a)]
+  | "parsedate" ->
+      (match parse_date_ok (get_bytes t) with Some true -> "ok" | Some false -> "error" | None -> "unknown")
   | _ -> raise Not_found
 
 let () =
